@@ -30,7 +30,13 @@ func (c *brotliDecompressor) Read(bytes []byte) (int, error) {
 	return c.reader.Read(bytes)
 }
 func (c *brotliDecompressor) Reset(rdr io.Reader) error {
-	return c.reader.Reset(rdr)
+	// brotli's Reader.Reset does not discard input that it buffered from the
+	// previous source but did not consume (for example after a "brotli:
+	// excessive input" error, or when the previous stream was not read to the
+	// end). Those stale bytes would be decoded ahead of the new source, so a
+	// Reader cannot safely be re-used. Start over with a new one instead.
+	c.reader = brotli.NewReader(rdr)
+	return nil
 }
 func (c *brotliDecompressor) Close() error {
 	// brotli's Reader does not expose a Close function
